@@ -168,6 +168,9 @@ func (t *tumble) Run(ctx execution.ExecutionContext, produce execution.ProduceFn
 	if err != nil {
 		return fmt.Errorf("couldn't evaluate window_length: %w", err)
 	}
+	if windowLength.Duration <= 0 {
+		return fmt.Errorf("window_length must be positive, got %s", windowLength.Duration)
+	}
 	offset, err := t.offset.Evaluate(ctx)
 	if err != nil {
 		return fmt.Errorf("couldn't evaluate offset: %w", err)
